@@ -128,4 +128,12 @@ def ambiguous_pairs(spec: RuleSpec, nodes) -> set:
             for m in sub(x, nodes):
                 out.add((m, x))
                 out.add((x, m))
+    if spec.anything and len(spec.subjects) > 1:
+        # batched 'anything': "except itself" read jointly (imports between the subjects allowed) vs one rule per
+        # subject (forbidden) - the two documented readings disagree on imports between different subjects only
+        sets = [filter_set(spec.s_kind, s, nodes) for s in spec.subjects]
+        for i, a in enumerate(sets):
+            for j, b in enumerate(sets):
+                if i != j:
+                    out |= {(x, y) for x in a for y in b if x != y}
     return out
